@@ -507,7 +507,26 @@ fn all_prefixes(nsavers: usize) -> Vec<Vec<usize>> {
     }
     v
 }
+/// The configurations that are explored COMPLETELY, with at most two preemptions: the cheap first pass (iterative
+/// context bounding). Its schedules are a subset of the complete pass; it exists so that a defect is reported after
+/// seconds even when a change has multiplied the scheduling points and with them the size of the complete pass.
+fn bounded_configs(tier: Tier) -> Vec<Config> {
+    configs(tier)
+        .into_iter()
+        .filter(|c| c.bound.is_none())
+        .map(|mut c| {
+            c.name = Box::leak(format!("at-most-2-preemptions:{}", c.name).into_boxed_str());
+            c.bound = Some(2);
+            c
+        })
+        .collect()
+}
 impl Sched {
+    fn new_bounded(tier: Tier) -> Sched {
+        let cfgs = bounded_configs(tier);
+        let prefixes = cfgs.iter().map(|c| all_prefixes(c.objects.len())).collect();
+        Sched { quick: tier == Tier::Quick, cfgs, prefixes }
+    }
     fn new(tier: Tier) -> Sched {
         let cfgs = configs(tier);
         let prefixes = cfgs.iter().map(|c| all_prefixes(c.objects.len())).collect();
@@ -621,13 +640,15 @@ fn lock_sites_are_hooked() -> Result<usize, String> {
 pub fn space(tier: Tier, id: &str) -> Option<Box<dyn Space>> {
     match id {
         "schedules" => Some(Box::new(Sched::new(tier))),
+        "first:schedules-at-most-2-preemptions" => Some(Box::new(Sched::new_bounded(tier))),
         _ => None,
     }
 }
 
 fn replay(tier: Tier, case: &Value) -> Vec<Violation> {
     let name = case["config"].as_str().unwrap_or("");
-    let cfgs = configs(tier);
+    let mut cfgs = configs(tier);
+    cfgs.extend(bounded_configs(tier));
     let cfg = match cfgs.iter().find(|c| c.name == name) {
         Some(c) => c.clone(),
         None => {
@@ -676,8 +697,9 @@ fn run(ctx: &Ctx) -> i32 {
         }
     }
     let cfgs = configs(ctx.tier);
-    let spaces = vec![("schedules", space(ctx.tier, "schedules").unwrap())];
-    let cfgs2 = cfgs.clone();
+    let spaces = vec![("first:schedules-at-most-2-preemptions", space(ctx.tier, "first:schedules-at-most-2-preemptions").unwrap()), ("schedules", space(ctx.tier, "schedules").unwrap())];
+    let mut cfgs2 = cfgs.clone();
+    cfgs2.extend(bounded_configs(ctx.tier));
     let code = run_e1_with(
         ctx,
         E1Spec {
